@@ -326,7 +326,8 @@ func main() {
 // Sourcegraph's UpdateIndexStatus for index jobs, the request context for DeleteAllData); then contender C is started.
 type siteScenario struct {
 	MT   int    // 1 = multi-tenant instance (WORKSPACES_API_URL set: shards are named by tenant and repository id)
-	H, C string // q:<repo> queue worker, f:<repo> forced re-index, d:<tenant>:<k> data deletion parked at its k-th pass
+	H, C string // q:<repo> queue worker, f:<repo> forced re-index, d:<tenant>:<k> data deletion parked at its k-th pass,
+	// m:0 a merge run (Server.merge), v:0 a vacuum run (Server.vacuum)
 }
 
 func siteKind(op string) (kind byte, id int) {
@@ -337,7 +338,7 @@ func siteKind(op string) (kind byte, id int) {
 
 func siteLeanOp(op string) string {
 	k, id := siteKind(op)
-	if k == 'd' {
+	if k == 'd' || k == 'm' || k == 'v' {
 		return "G"
 	}
 	return fmt.Sprintf("W%d", id)
@@ -361,7 +362,8 @@ func runSite(w *gen.Writer, proc *gen.IxsLineProc, sc siteScenario, tag string) 
 	}
 	hk, hid := siteKind(sc.H)
 	ck, cid := siteKind(sc.C)
-	global := hk == 'd' || ck == 'd'
+	isGlobal := func(k byte) bool { return k == 'd' || k == 'm' || k == 'v' }
+	global := isGlobal(hk) || isGlobal(ck)
 	conflict := global || hid == cid
 	hIn, cPause, cLater := kv["H"] == "1", kv["Cpause"] == "1", kv["Clater"] == "1"
 	// oracle, from the statement alone
@@ -385,7 +387,7 @@ func runSite(w *gen.Writer, proc *gen.IxsLineProc, sc siteScenario, tag string) 
 	}
 	// the same observation as a trace of two goroutines for the Lean model and statement
 	ret := func(g int, op string) string {
-		if op[0] == 'd' {
+		if isGlobal(op[0]) {
 			return fmt.Sprintf("r%d", g)
 		}
 		return fmt.Sprintf("t%d", g)
@@ -396,8 +398,8 @@ func runSite(w *gen.Writer, proc *gen.IxsLineProc, sc siteScenario, tag string) 
 		ev = append(ev, "b1", "e0", ret(0, sc.H), "e1", ret(1, sc.C))
 	case cLater:
 		ev = append(ev, "e0", ret(0, sc.H), "b1", "e1", ret(1, sc.C))
-	case ck == 'd':
-		ev = append(ev, "e0", ret(0, sc.H)) // the deletion never got going: reported by the oracle above
+	case isGlobal(ck):
+		ev = append(ev, "e0", ret(0, sc.H)) // the global operation never got going: reported by the oracle above
 	default:
 		ev = append(ev, "e0", ret(0, sc.H), "f1")
 	}
@@ -420,6 +422,7 @@ func siteScenarios(r *gen.Rand, thorough bool) []siteScenario {
 			{"q:3", "f:4"}, {"f:3", "f:4"}, // independent repositories
 			{"d:1:2", "f:3"}, {"d:1:3", "f:3"}, {"d:1:4", "f:3"}, {"d:2:3", "q:4"}, {"d:2:4", "q:4"}, {"d:2:4", "d:1:2"}, // a global operation is running
 			{"q:3", "d:1:2"}, {"f:4", "d:2:2"}, // a global operation arrives while an index job runs
+			{"m:0", "f:3"}, {"v:0", "q:3"}, {"f:3", "m:0"}, {"q:4", "v:0"}, {"m:0", "v:0"}, {"v:0", "d:1:2"}, {"d:1:3", "m:0"}, {"d:2:4", "v:0"}, // merge and vacuum
 		} {
 			out = append(out, siteScenario{MT: mt, H: p[0], C: p[1]})
 		}
@@ -429,7 +432,11 @@ func siteScenarios(r *gen.Rand, thorough bool) []siteScenario {
 		extra = 150
 	}
 	op := func() string {
-		switch r.Intn(3) {
+		switch r.Intn(5) {
+		case 3:
+			return "m:0"
+		case 4:
+			return "v:0"
 		case 0:
 			return fmt.Sprintf("q:%d", r.Range(3, 5))
 		case 1:
